@@ -111,6 +111,9 @@ struct LocalViol
   ~LocalViol();
   };
 
+// same interface, immediate recording (used by replay)
+struct DirectViol { Recorder& r; template<typename F> void hit(int cl, u64 ord, F && f) { r.viol(cl, ord, f); } };
+
 //------------------------------------------------------------------ parallel
 void parallel_blocks(size_t nblocks, int threads, std::function<void(size_t blk, int tid)> const& fn);
 double now_s();
